@@ -448,6 +448,8 @@ Definition lits_client_Conn_runLoop : list lit :=
   [].
 Definition lits_client_Conn_send : list lit :=
   [LStr [105; 114; 99; 46; 115; 101; 110; 100; 40; 41; 58; 32; 37; 115]%N].
+Definition lits_client_Conn_setConnected : list lit :=
+  [].
 Definition lits_client_Conn_write : list lit :=
   [LInt (0);
    LStr [105; 114; 99; 46; 114; 97; 116; 101; 76; 105; 109; 105; 116; 40; 41; 58; 32; 70; 108; 111; 111; 100; 33; 32; 83; 108; 101; 101; 112; 105; 110; 103; 32; 102; 111; 114; 32; 37; 46; 50; 102; 32; 115; 101; 99; 115; 46]%N;
